@@ -458,3 +458,14 @@ Proof.
   - apply (forallb_not_contains ucu); [exact Hu|reflexivity].
   - apply (forallb_not_contains ucu); [exact Hu|reflexivity].
 Qed.
+
+(* ---------- the two struct names of an operation ---------- *)
+Lemma request_struct_name_inj a b : request_struct_name a = request_struct_name b -> a = b.
+Proof. unfold request_struct_name. apply app_inv_tail. Qed.
+Lemma required_struct_name_inj a b : required_struct_name a = required_struct_name b -> a = b.
+Proof. unfold required_struct_name. apply app_inv_tail. Qed.
+Lemma request_required_disjoint a b : request_struct_name a <> required_struct_name b.
+Proof.
+  unfold request_struct_name, required_struct_name. intros E. apply (f_equal (@rev ascii)) in E.
+  rewrite !rev_app_distr in E. cbn in E. discriminate.
+Qed.
